@@ -293,7 +293,7 @@ class PktGen:
                     u = ["bin", "ge", ["un", "len", me], ["c", d(st.integers(1, 3))]]
             if self.prof["rawcb"] and chance(d, 0.25):
                 u = ["bin", "le", ["rawrem"], ["c", d(st.integers(0, 2))]]
-            elif self.prof["relpos"] and chance(d, 0.2):
+            elif self.prof["relpos"] and chance(d, self.prof.get("relpos_p", 0.2)):
                 u = ["bin", "ge", ["relpos"], ["c", d(st.integers(1, 12))]]
             f["until"] = ["call", u]
         if chance(d, 0.3):
@@ -305,7 +305,11 @@ class PktGen:
     def gen_opt(self):
         d = self.draw
         elem = self.gen_elem(allow_refsel=False)
-        return {"k": "opt", "name": self.fresh(), "elem": elem, "when": self.spec_of(self.cond_expr())}
+        when = self.spec_of(self.cond_expr())
+        if self.prof["relpos"] and chance(d, self.prof.get("relpos_p", 0.2) / 2):
+            # a condition on where we are inside the innermost packet (uses the offset / innermost-pkt-pos callable arguments)
+            when = ["call", ["bin", d(st.sampled_from(["ge", "lt", "ne"])), ["relpos"], ["c", d(st.integers(0, 8))]]]
+        return {"k": "opt", "name": self.fresh(), "elem": elem, "when": when}
 
     def gen_move(self, idx):
         d = self.draw
@@ -634,7 +638,10 @@ class ValGen:
             return self.field_value(o[1], pkt, vals, {})
         if k == "opt":
             try:
-                c = cond_truth(f["when"], vals, pkt)
+                if f["when"][0] in ("expr", "call") and X.uses_raw(f["when"][1]):
+                    c = d(st.booleans())      # position-dependent: the parser decides, the tree is only a plausible input
+                else:
+                    c = cond_truth(f["when"], vals, pkt)
             except Exception:
                 raise Infeasible("condition raises")
             return self.field_value(f["elem"], pkt, vals, opts) if c else None
